@@ -1,3 +1,5 @@
+//go:build vmc
+
 // C07: signature replay window. Engine A, explicit enumeration of all timestamp histories
 // up to a depth over a boundary alphabet, on the real frame.Reader, against ref.Window.
 package main
@@ -14,6 +16,8 @@ import (
 	"github.com/bluenviron/gomavlib/v3/pkg/frame"
 	"github.com/bluenviron/gomavlib/v3/pkg/message"
 	"github.com/bluenviron/gomavlib/v3/pkg/streamwriter"
+	"github.com/bluenviron/gomavlib/v3/pkg/vmc"
+	"github.com/bluenviron/gomavlib/v3/pkg/vmc/vtime"
 
 	"verif/bx"
 	"verif/ref"
@@ -246,7 +250,7 @@ func main() {
 
 	r.Assumption = []string{
 		"timestamps outside the boundary alphabets are not enumerated (2^48 values); the alphabet holds every boundary of the window arithmetic incl. the 48 bit ends",
-		"writer clause: the wall clock does not step backwards during the run (timestamps are sandwiched between two clock readings)",
+		"writer clause: clock gaps from {0, 9.999us, 10us, 10.001us, 1s, 400d}, sequences of 4, starting at the virtual epoch 2026-01-01; a clock stepping backwards is outside the alphabet",
 	}
 	r.Finish(map[string]any{
 		"states":                        states.N() + 1,
@@ -268,54 +272,83 @@ func (c *capture) Write(p []byte) (int, error) {
 	return len(p), nil
 }
 
-// writerCheck: timestamps of keyed writers are floor((now-2015-01-01)/10us), sandwiched
-// between clock readings, and never decrease.
+// writerCheck: the keyed writers read the virtual clock (the time import of pkg/streamwriter
+// and pkg/frame is substituted in this build): every sequence of 4 clock gaps over
+// {0, 9.999 us, 10 us, 10.001 us, 1 s, 400 days} is played; each emitted timestamp must be
+// exactly floor((now - 2015-01-01 UTC) / 10 us) and never decrease.
 func writerCheck(r *bx.Run, quiet bool) string {
 	epoch := time.Date(2015, 1, 1, 0, 0, 0, 0, time.UTC)
-	tick := func(t time.Time) uint64 { return uint64(t.Sub(epoch) / (10 * time.Microsecond)) }
+	gaps := []time.Duration{0, 9999 * time.Nanosecond, 10 * time.Microsecond, 10001 * time.Nanosecond, time.Second, 400 * 24 * time.Hour}
+	n := len(gaps)
+	total := n * n * n * n
 	for _, kind := range []string{"streamwriter", "framewriter"} {
-		cp := &capture{}
-		fw := &frame.Writer{ByteWriter: cp, DialectRW: drw, OutVersion: frame.V2, OutSystemID: 3, OutKey: frame.NewV2Key(key), OutSignatureLinkID: 9}
-		if err := fw.Initialize(); err != nil {
-			return err.Error()
-		}
-		sw := &streamwriter.Writer{FrameWriter: fw, Version: streamwriter.V2, SystemID: 3, Key: frame.NewV2Key(key), SignatureLinkID: 9}
-		if err := sw.Initialize(); err != nil {
-			return err.Error()
-		}
-		var last uint64
-		for i := 0; i < 300; i++ {
-			var msg message.Message = &minimal.MessageHeartbeat{Type: 1}
-			before := tick(time.Now())
-			nb := len(cp.bufs)
-			var err error
-			if kind == "streamwriter" {
-				err = sw.Write(msg)
-			} else {
-				err = fw.WriteMessage(msg) //nolint
+		for idx := 0; idx < total; idx++ {
+			seq := make([]time.Duration, 4)
+			x := idx
+			for i := range seq {
+				seq[i] = gaps[x%n]
+				x /= n
 			}
-			after := tick(time.Now())
-			if err != nil {
-				return kind + ": " + err.Error()
+			var problem string
+			res := vmc.RunOnce(nil, vmc.Options{MaxTime: 100 * 365 * 24 * time.Hour, NoCache: true}, func() {
+				cp := &capture{}
+				fw := &frame.Writer{ByteWriter: cp, DialectRW: drw, OutVersion: frame.V2, OutSystemID: 3, OutKey: frame.NewV2Key(key), OutSignatureLinkID: 9}
+				if err := fw.Initialize(); err != nil {
+					problem = err.Error()
+					return
+				}
+				sw := &streamwriter.Writer{FrameWriter: fw, Version: streamwriter.V2, SystemID: 3, Key: frame.NewV2Key(key), SignatureLinkID: 9}
+				if err := sw.Initialize(); err != nil {
+					problem = err.Error()
+					return
+				}
+				var last uint64
+				for i, g := range seq {
+					if g > 0 {
+						vtime.Sleep(g)
+					}
+					nb := len(cp.bufs)
+					var msg message.Message = &minimal.MessageHeartbeat{Type: 1}
+					var err error
+					if kind == "streamwriter" {
+						err = sw.Write(msg)
+					} else {
+						err = fw.WriteMessage(msg) //nolint
+					}
+					if err != nil {
+						problem = kind + ": " + err.Error()
+						return
+					}
+					var emitted []byte
+					for _, b := range cp.bufs[nb:] {
+						emitted = append(emitted, b...)
+					}
+					it, ok := ref.ParseOne(emitted)
+					if !ok || it.Kind != ref.KindFrame || !it.Frame.Signed() {
+						problem = kind + ": emitted bytes are not a signed frame"
+						return
+					}
+					want := uint64(vtime.Now().Sub(epoch) / (10 * time.Microsecond))
+					if ts := it.Frame.Timestamp; ts != want {
+						problem = fmt.Sprintf("%s: write %d at virtual time %v (clock gaps %v): timestamp %d, want floor((now-2015-01-01)/10us) = %d", kind, i, vtime.Now().UTC(), seq, ts, want)
+						return
+					} else if ts < last {
+						problem = fmt.Sprintf("%s: timestamp decreased %d -> %d", kind, last, ts)
+						return
+					} else {
+						last = ts
+					}
+					if it.Frame.Sign(key) != it.Frame.Sig {
+						problem = kind + ": signature does not cover the emitted timestamp"
+						return
+					}
+				}
+			})
+			if res.End == "panic" || res.End == "divergence" {
+				return res.PanicMsg
 			}
-			var emitted []byte
-			for _, b := range cp.bufs[nb:] {
-				emitted = append(emitted, b...)
-			}
-			it, ok := ref.ParseOne(emitted)
-			if !ok || it.Kind != ref.KindFrame || !it.Frame.Signed() {
-				return kind + ": emitted bytes are not a signed frame"
-			}
-			ts := it.Frame.Timestamp
-			if ts < before || ts > after {
-				return fmt.Sprintf("%s: timestamp %d not in [%d,%d] (10us ticks since 2015-01-01 UTC)", kind, ts, before, after)
-			}
-			if ts < last {
-				return fmt.Sprintf("%s: timestamp decreased %d -> %d", kind, last, ts)
-			}
-			last = ts
-			if i%50 == 0 {
-				time.Sleep(30 * time.Microsecond)
+			if problem != "" {
+				return problem
 			}
 		}
 	}
